@@ -70,6 +70,7 @@ func (c *Collection) ComputeStats() CollectionStats {
 
 	// Calculate the storage size
 	storageSize, documentCount := c.spanfile.GetStats()
+	verifPoint("computeStats.locked", nil)
 
 	// Calculate the average distance
 	averageDistance := c.computeAverageDistance(100) // Example: use 100 samples
